@@ -8,6 +8,7 @@ study-sample rows.  Statements hold for combined data sets of any size, any numb
 strata, `generalize ∈ {true,false}`, stabilized or not.
 -/
 import ZepidVerif.Lemmas.Generalize
+import ZepidVerif.Lemmas.FitBridge
 import Mathlib.Algebra.Order.Field.Rat
 import Mathlib.Tactic.NormNum
 set_option linter.unusedSectionVars false
@@ -102,6 +103,23 @@ theorem aipsw_weights_saturated_unstab (l : List (Row F)) (S : List Nat) (hS : S
     have hp0' := hp0.ne'
     simp only [ipswConst] at b2
     cases generalize <;> cases a <;> simp [Gen.ipsw_weight, Gen.iptw_weight, Tgt.str] <;> field_simp
+
+/-- **Tie to the source.**  The definition regenerated from the text of `AIPSW.fit` on every run computes
+    exactly the model `aipsw` the theorems above are about (no frequency-weight column: AIPSW refuses one):
+    its two outputs are the difference and the ratio of the two arms. -/
+theorem aipsw_fit_generated (generalize hasIptw : Bool) (l : List (Row F)) (hw : ∀ r ∈ l, r.w = 1)
+    (ipsw iptw q1 q0 : Row F → F) :
+    let Q : Row F → Bool → F := fun r a => if a then q1 r else q0 r
+    let ω : Row F → F := fun r => if hasIptw then ipsw r * iptw r else ipsw r
+    Gen.aipsw_fit generalize false hasIptw l ipsw iptw q1 q0
+      = (aipsw generalize l Q ω true - aipsw generalize l Q ω false,
+         aipsw generalize l Q ω true / aipsw generalize l Q ω false) := by
+  intro Q ω
+  have e1 : aipsw generalize l Q ω true = aipsw generalize l (fun r _ => q1 r) ω true := rfl
+  have e0 : aipsw generalize l Q ω false = aipsw generalize l (fun r _ => q0 r) ω false := rfl
+  rw [e1, e0, aipsw_arm_eq generalize l hw ω q1 true, aipsw_arm_eq generalize l hw ω q0 false]
+  cases generalize <;> cases hasIptw <;>
+    simp [Gen.aipsw_fit, ω, add_comm]
 
 /-- the risk difference and ratio are the difference and ratio of the two standardized risks -/
 theorem rd_rr_def (l : List (Row F)) (S : List Nat) (hS : Strata l S) (hpos : Positivity l S)
